@@ -86,6 +86,11 @@ func (gs *GraphicsState) Save() {
 	gs.stack = append(gs.stack, gs.Clone())
 }
 
+// StackDepth returns the number of states saved with q and not yet restored.
+func (gs *GraphicsState) StackDepth() int {
+	return len(gs.stack)
+}
+
 // Restore pops a graphics state from the stack (Q operator)
 func (gs *GraphicsState) Restore() error {
 	if len(gs.stack) == 0 {
